@@ -113,6 +113,31 @@ def MovedRight (old new anchor lo : Int) : Prop :=
 def MovedLeft (old new anchor hi : Int) : Prop :=
   (old = -1 → new = -1) ∧ (old ≠ -1 → anchor - max 0 (hi - old) ≤ new ∧ new ≤ anchor)
 
+/-- the clamp of the repaired code keeps the re-anchoring bound of the external position -/
+theorem MovedRight.clamp {oi oe ni ne anchor lo : Int} (hi : MovedRight oi ni anchor lo)
+    (he : MovedRight oe ne anchor lo) : MovedRight oe (clampA oi oe ni ne) anchor lo := by
+  unfold clampA
+  refine ⟨fun h => ?_, fun h => ?_⟩
+  · have := he.1 h; simp [h, this]
+  · have h2 := he.2 h
+    split
+    · rename_i hc
+      have h1 := hi.2 hc.1
+      omega
+    · exact h2
+
+theorem MovedLeft.clamp {oi oe ni ne anchor hi' : Int} (hi : MovedLeft oi ni anchor hi')
+    (he : MovedLeft oe ne anchor hi') : MovedLeft oe (clampT oi oe ni ne) anchor hi' := by
+  unfold clampT
+  refine ⟨fun h => ?_, fun h => ?_⟩
+  · have := he.1 h; simp [h, this]
+  · have h2 := he.2 h
+    split
+    · rename_i hc
+      have h1 := hi.2 hc.1
+      omega
+    · exact h2
+
 /-- **tail_moved_onto_retained** — for every sorted disjoint non-empty exon list and every position quadruple:
     when polyA exons are removed, the internal and the external polyA position are both moved onto the last
     exon of the result (its end is the anchor); when polyT exons are removed both polyT positions are moved onto
@@ -137,7 +162,8 @@ theorem tail_moved_onto_retained (mf : Int) (exons rb cb : List Iv) (info : Poly
   · intro h; rw [hri, h2ia, h2ea, hA0 h]; exact ⟨rfl, rfl⟩
   · intro h
     have hal : a < exons.length := by omega
-    obtain ⟨h1, h2⟩ := hA h
+    obtain ⟨h1, h2'⟩ := hA h
+    obtain ⟨ea, h2, h3⟩ := Option.map_eq_some_iff.1 h2'
     -- the last retained exon
     have hlast : r.exons.getLast? = exons[exons.length - a.toNat - 1]? := by
       rw [hre, List.getLast?_drop, List.length_take]
@@ -172,13 +198,14 @@ theorem tail_moved_onto_retained (mf : Int) (exons rb cb : List Iv) (info : Poly
     subst hl12 hf12
     refine ⟨l2, f2, by rw [hlast, hl1], hf1, ?_, ?_⟩
     · rw [hri, h2ia]; exact hm1
-    · rw [hri, h2ea]; exact hm2
+    · rw [hri, h2ea, ← h3]; exact hm1.clamp hm2
   · intro h; rw [hri, hT0 h, hIT, hET]; exact ⟨rfl, rfl⟩
   · intro h
     have hsd1 : SD st1.exons := by rw [h1e]; exact hsd.take _
     have h1len : st1.exons.length = exons.length - a.toNat := by rw [h1e]; simp
     have htl : t < st1.exons.length := by rw [h1len]; omega
-    obtain ⟨h1, h2⟩ := hT h
+    obtain ⟨h1, h2'⟩ := hT h
+    obtain ⟨et, h2, h3⟩ := Option.map_eq_some_iff.1 h2'
     have hidx : ∀ i, i < exons.length - a.toNat → st1.exons[i]? = exons[i]? := by
       intro i hi; rw [h1e, List.getElem?_take]; simp [hi]
     have hhead : r.exons.head? = exons[t.toNat]? := by
@@ -208,13 +235,13 @@ theorem tail_moved_onto_retained (mf : Int) (exons rb cb : List Iv) (info : Poly
     subst hk12 ht12
     refine ⟨k2, t2, by rw [hhead, hk1], ht1, ?_, ?_⟩
     · rw [hri]; exact hm1
-    · rw [hri]; exact hm2
+    · rw [hri, ← h3]; exact hm1.clamp hm2
 
 /-- non-vacuity: a read with two polyA exons (`a = 2`) whose external polyA lies beyond the alignment end -/
 example : SD [(100, 200), (300, 310), (400, 420)] ∧
     correctReadInfo 40 [(100, 200), (300, 310), (400, 420)] ⟨425, -1, 302, -1⟩ = some (2, 0) ∧
     (addPolyaInfo 40 [(100, 200), (300, 310), (400, 420)] [] [] ⟨425, -1, 302, -1⟩).map (fun r => (r.exons, r.info))
-      = some ([(100, 200)], ⟨236, -1, 202, -1⟩) := by
+      = some ([(100, 200)], ⟨202, -1, 202, -1⟩) := by
   refine ⟨⟨?_, ?_⟩, by decide, by decide⟩
   · intro e he; simp at he; rcases he with h | h | h <;> subst h <;> decide
   · simp
@@ -263,5 +290,247 @@ example : SD [(100, 200), (300, 310), (400, 420)] ∧ (302 : Int) ≠ -1 := by
   refine ⟨⟨?_, ?_⟩, by decide⟩
   · intro e he; simp at he; rcases he with h | h | h <;> subst h <;> decide
   · simp
+
+/-- mirror image of `internal_tail_within_first_removed` for the internal polyT position: every removed exon starts
+    before it, so after trimming it sits at `firstKept.1 - max 0 (lastRemoved.2 - pos)` -/
+theorem internal_head_within_last_removed (mf : Int) (exons rb cb : List Iv) (info : PolyAInfo) (hsd : SD exons)
+    (hne : exons ≠ []) :
+    ∃ (r : AInfo) (a t : Int), addPolyaInfo mf exons rb cb info = some r ∧
+      correctReadInfo mf exons info = some (a, t) ∧
+      (0 < t → info.internalPolyT ≠ -1 →
+        ∃ firstKept lastRemoved : Iv, r.exons.head? = some firstKept ∧
+          exons[t.toNat - 1]? = some lastRemoved ∧
+          lastRemoved.1 < info.internalPolyT ∧
+          r.info.internalPolyT = firstKept.1 - max 0 (lastRemoved.2 - info.internalPolyT)) := by
+  obtain ⟨a, t, st0, st1, st2, r, hcri, hlt, _, _, _, _, _, _, hr, h1e, hre, _, _, hri, _, _, _, _, _, _, hT,
+    _, _⟩ := addPolyaInfo_spec mf exons rb cb info hne
+  obtain ⟨a', t', hcri', _, _, htle, _⟩ := correctReadInfo_spec mf exons info hne
+  rw [hcri] at hcri'
+  obtain ⟨rfl, rfl⟩ := Prod.mk.inj (Option.some.inj hcri')
+  refine ⟨r, a, t, hr, hcri, ?_⟩
+  intro h hp
+  have hsd1 : SD st1.exons := by rw [h1e]; exact hsd.take _
+  have h1len : st1.exons.length = exons.length - a.toNat := by rw [h1e]; simp
+  have htl : t < st1.exons.length := by rw [h1len]; omega
+  have hk : t.toNat < st1.exons.length := by omega
+  have hk0 : 0 < t.toNat := by omega
+  have hidx : ∀ i, i < exons.length - a.toNat → st1.exons[i]? = exons[i]? := by
+    intro i hi; rw [h1e, List.getElem?_take]; simp [hi]
+  have hstart0 := first_counted_start_before mf exons info.internalPolyT t.toNat (by omega) hk0
+  have hstart : ∀ e ∈ st1.exons.take t.toNat, e.1 < info.internalPolyT := by
+    intro e he
+    apply hstart0
+    rw [h1e, List.take_take, Nat.min_eq_left (by omega)] at he
+    exact he
+  obtain ⟨fk, hfk, hs⟩ := shiftPolyt_eq st1.exons t info.internalPolyT h htl hp
+  rw [(hT h).1] at hs
+  have hd := shiftDistT_counted st1.exons t.toNat info.internalPolyT hsd1 hk0 hk hstart
+  have hhead : r.exons.head? = exons[t.toNat]? := by
+    rw [hre, List.head?_drop, ← h1e, hidx _ (by omega)]
+  have hi1 : t.toNat - 1 < st1.exons.length := by omega
+  have hlr : exons[t.toNat - 1]? = some (st1.exons[t.toNat - 1]'hi1) := by
+    rw [← hidx _ (by omega)]; simp [hi1]
+  rw [hidx _ (by omega)] at hfk
+  refine ⟨fk, st1.exons[t.toNat - 1]'hi1, by rw [hhead, hfk], hlr, ?_, ?_⟩
+  · exact hstart _ (List.mem_take_iff_getElem.2 ⟨t.toNat - 1, by omega, rfl⟩)
+  · rw [hri, Option.some.inj hs, hd]
+
+example : SD [(100, 110), (200, 300)] ∧
+    correctReadInfo 40 [(100, 110), (200, 300)] ⟨-1, 95, -1, 108⟩ = some (0, 1) ∧
+    (addPolyaInfo 40 [(100, 110), (200, 300)] [] [] ⟨-1, 95, -1, 108⟩).map (fun r => (r.exons, r.info))
+      = some ([(200, 300)], ⟨-1, 198, -1, 198⟩) := by
+  refine ⟨⟨?_, ?_⟩, by decide, by decide⟩
+  · intro e he; simp at he; rcases he with h | h <;> subst h <;> decide
+  · simp
+
+/-- **tail_on_retained_exon** (full strength, repaired code) — "moves the recorded tail position onto the retained
+    exon", for every sorted disjoint non-empty exon list, every position quadruple and every
+    `max_fake_terminal_exon_len`.  When `a > 0` exons are removed at the 3' end the internal polyA position was found
+    (`≠ -1`), lies before the end of the first removed exon, and with
+    `d = max 0 (internal − start of the first removed exon)` — the number of bases of the removed part that lie before
+    the tail and therefore stay attached to the retained exon (0 when the removed exons consist of tail; bounded by
+    `max_fake_terminal_exon_len`, `tail_offset_bounded` in Props/C16TailExons.lean) —
+    * the internal position is recorded EXACTLY at `end of the last retained exon + d`,
+    * the external position, when found, is recorded in `[end of the last retained exon, recorded internal position]`
+      (never beyond the point where the internal scan says the tail starts), and stays `-1` otherwise.
+    Mirror statement at the 5' end around the start of the first retained exon. -/
+theorem tail_on_retained_exon (mf : Int) (exons rb cb : List Iv) (info : PolyAInfo) (hsd : SD exons)
+    (hne : exons ≠ []) :
+    ∃ (r : AInfo) (a t : Int), addPolyaInfo mf exons rb cb info = some r ∧
+      correctReadInfo mf exons info = some (a, t) ∧
+      (0 < a → ∃ lastKept firstRemoved : Iv, r.exons.getLast? = some lastKept ∧
+          exons[exons.length - a.toNat]? = some firstRemoved ∧
+          info.internalPolyA ≠ -1 ∧ info.internalPolyA < firstRemoved.2 ∧
+          r.info.internalPolyA = lastKept.2 + max 0 (info.internalPolyA - firstRemoved.1) ∧
+          (info.externalPolyA = -1 → r.info.externalPolyA = -1) ∧
+          (info.externalPolyA ≠ -1 →
+            lastKept.2 ≤ r.info.externalPolyA ∧ r.info.externalPolyA ≤ r.info.internalPolyA)) ∧
+      (0 < t → ∃ firstKept lastRemoved : Iv, r.exons.head? = some firstKept ∧
+          exons[t.toNat - 1]? = some lastRemoved ∧
+          info.internalPolyT ≠ -1 ∧ lastRemoved.1 < info.internalPolyT ∧
+          r.info.internalPolyT = firstKept.1 - max 0 (lastRemoved.2 - info.internalPolyT) ∧
+          (info.externalPolyT = -1 → r.info.externalPolyT = -1) ∧
+          (info.externalPolyT ≠ -1 →
+            r.info.internalPolyT ≤ r.info.externalPolyT ∧ r.info.externalPolyT ≤ firstKept.1)) := by
+  obtain ⟨r, a, t, hr, hcri, _, hA, _, hT⟩ := tail_moved_onto_retained mf exons rb cb info hsd hne
+  obtain ⟨r1, a1, t1, hr1, hcri1, hAs⟩ := internal_tail_within_first_removed mf exons rb cb info hsd hne
+  obtain ⟨r2, a2, t2, hr2, hcri2, hTs⟩ := internal_head_within_last_removed mf exons rb cb info hsd hne
+  obtain ⟨a3, t3, st0, st1, st2, r3, hcri3, _, _, _, _, _, _, _, hr3, _, _, _, _, hri, _, _, hAc, _, _, _, hTc,
+    h2ia, h2ea⟩ := addPolyaInfo_spec mf exons rb cb info hne
+  obtain ⟨a4, t4, hcri4, _, hale, htle, _⟩ := correctReadInfo_spec mf exons info hne
+  rw [hr] at hr1 hr2 hr3
+  obtain rfl := Option.some.inj hr1
+  obtain rfl := Option.some.inj hr2
+  obtain rfl := Option.some.inj hr3
+  rw [hcri] at hcri1 hcri2 hcri3 hcri4
+  obtain ⟨rfl, rfl⟩ := Prod.mk.inj (Option.some.inj hcri1)
+  obtain ⟨rfl, rfl⟩ := Prod.mk.inj (Option.some.inj hcri2)
+  obtain ⟨rfl, rfl⟩ := Prod.mk.inj (Option.some.inj hcri3)
+  obtain ⟨rfl, rfl⟩ := Prod.mk.inj (Option.some.inj hcri4)
+  refine ⟨r, a, t, hr, hcri, ?_, ?_⟩
+  · intro h
+    have hp : info.internalPolyA ≠ -1 := by
+      intro hc
+      have : countPolyaExons mf exons info.internalPolyA = 0 := by simp [countPolyaExons, hc]
+      omega
+    obtain ⟨lk, fr, hlk, hfr, hmi, hme⟩ := hA h
+    obtain ⟨lk', fr', hlk', hfr', hlt, hex⟩ := hAs h hp
+    rw [hlk] at hlk'; rw [hfr] at hfr'
+    obtain rfl := Option.some.inj hlk'
+    obtain rfl := Option.some.inj hfr'
+    refine ⟨lk, fr, hlk, hfr, hp, hlt, hex, hme.1, ?_⟩
+    intro he
+    refine ⟨(hme.2 he).1, ?_⟩
+    obtain ⟨_, hc⟩ := hAc h
+    obtain ⟨ea, _, hc'⟩ := Option.map_eq_some_iff.1 hc
+    rw [hri, h2ia, h2ea, ← hc', clampA_both _ _ _ _ hp he]
+    omega
+  · intro h
+    have hp : info.internalPolyT ≠ -1 := by
+      intro hc
+      have : countPolytExons mf exons info.internalPolyT = 0 := by simp [countPolytExons, hc]
+      omega
+    obtain ⟨fk, lr, hfk, hlr, hmi, hme⟩ := hT h
+    obtain ⟨fk', lr', hfk', hlr', hlt, hex⟩ := hTs h hp
+    rw [hfk] at hfk'; rw [hlr] at hlr'
+    obtain rfl := Option.some.inj hfk'
+    obtain rfl := Option.some.inj hlr'
+    refine ⟨fk, lr, hfk, hlr, hp, hlt, hex, hme.1, ?_⟩
+    intro he
+    refine ⟨?_, (hme.2 he).2⟩
+    obtain ⟨_, hc⟩ := hTc h
+    obtain ⟨et, _, hc'⟩ := Option.map_eq_some_iff.1 hc
+    rw [hri, ← hc', clampT_both _ _ _ _ hp he]
+    omega
+
+/-- non-vacuity + the audit's read (`201M299N31M30S`, 31 aligned A + 30 clipped A): external 1528 / internal 1200 are
+    both recorded at 1200, the end of the retained exon -/
+example : SD [(1000, 1200), (1500, 1530)] ∧
+    correctReadInfo 40 [(1000, 1200), (1500, 1530)] ⟨1528, -1, 1200, -1⟩ = some (1, 0) ∧
+    (addPolyaInfo 40 [(1000, 1200), (1500, 1530)] [] [] ⟨1528, -1, 1200, -1⟩).map (fun r => (r.exons, r.info))
+      = some ([(1000, 1200)], ⟨1200, -1, 1200, -1⟩) := by
+  refine ⟨⟨?_, ?_⟩, by decide, by decide⟩
+  · intro e he; simp at he; rcases he with h | h <;> subst h <;> decide
+  · simp
+
+/-- **tail_at_end_of_retained_exon** — the statement read literally: when the removed exons CONSIST of tail (the
+    internal position does not lie after the start of the first removed exon; mirror: not before the end of the last
+    removed exon), both recorded positions ARE the end (start) of the retained exon. -/
+theorem tail_at_end_of_retained_exon (mf : Int) (exons rb cb : List Iv) (info : PolyAInfo) (hsd : SD exons)
+    (hne : exons ≠ []) :
+    ∃ (r : AInfo) (a t : Int), addPolyaInfo mf exons rb cb info = some r ∧
+      correctReadInfo mf exons info = some (a, t) ∧
+      (0 < a → ∃ lastKept firstRemoved : Iv, r.exons.getLast? = some lastKept ∧
+          exons[exons.length - a.toNat]? = some firstRemoved ∧
+          (info.internalPolyA ≤ firstRemoved.1 →
+            r.info.internalPolyA = lastKept.2 ∧
+            (info.externalPolyA ≠ -1 → r.info.externalPolyA = lastKept.2))) ∧
+      (0 < t → ∃ firstKept lastRemoved : Iv, r.exons.head? = some firstKept ∧
+          exons[t.toNat - 1]? = some lastRemoved ∧
+          (lastRemoved.2 ≤ info.internalPolyT →
+            r.info.internalPolyT = firstKept.1 ∧
+            (info.externalPolyT ≠ -1 → r.info.externalPolyT = firstKept.1))) := by
+  obtain ⟨r, a, t, hr, hcri, hA, hT⟩ := tail_on_retained_exon mf exons rb cb info hsd hne
+  refine ⟨r, a, t, hr, hcri, ?_, ?_⟩
+  · intro h
+    obtain ⟨lk, fr, hlk, hfr, _, _, hi, _, he⟩ := hA h
+    refine ⟨lk, fr, hlk, hfr, fun hle => ⟨by omega, fun hx => ?_⟩⟩
+    have := he hx
+    omega
+  · intro h
+    obtain ⟨fk, lr, hfk, hlr, _, _, hi, _, he⟩ := hT h
+    refine ⟨fk, lr, hfk, hlr, fun hle => ⟨by omega, fun hx => ?_⟩⟩
+    have := he hx
+    omega
+
+example : (1200 : Int) ≤ (1500, 1530).1 := by decide
+
+/-- **external_shift_witness** — the code before the repair (both positions shifted independently) fails the
+    clause: on the audit's read the external position is recorded at 1228, 28 bases past the retained exon
+    `(1000, 1200)` – as far as the aligned tail reached into the removed exon – while the internal one is at 1200;
+    mirror image for polyT.  With `--report_novel_unspliced true` ten such reads gave a novel mono-exon model ending
+    28 bp behind every aligned base. -/
+theorem external_shift_witness :
+    (addPolyaInfoOrigShift 40 [(1000, 1200), (1500, 1530)] [] [] ⟨1528, -1, 1200, -1⟩).map (fun r => (r.exons, r.info))
+      = some ([(1000, 1200)], ⟨1228, -1, 1200, -1⟩) ∧
+    (addPolyaInfoOrigShift 40 [(1000, 1030), (1330, 1530)] [] [] ⟨-1, 1002, -1, 1330⟩).map (fun r => (r.exons, r.info))
+      = some ([(1330, 1530)], ⟨-1, 1302, -1, 1330⟩) ∧
+    (addPolyaInfo 40 [(1000, 1030), (1330, 1530)] [] [] ⟨-1, 1002, -1, 1330⟩).map (fun r => (r.exons, r.info))
+      = some ([(1330, 1530)], ⟨-1, 1330, -1, 1330⟩) := by decide
+
+/-- the repair changes nothing but the external positions of reads on which both positions were found and exons
+    were removed: same exons, same blocks, same internal positions, and the same external ones whenever one of the
+    two positions of a side is absent -/
+theorem repair_conservative (mf : Int) (exons rb cb : List Iv) (info : PolyAInfo)
+    (hA : info.internalPolyA = -1 ∨ info.externalPolyA = -1)
+    (hT : info.internalPolyT = -1 ∨ info.externalPolyT = -1) :
+    addPolyaInfo mf exons rb cb info = addPolyaInfoOrigShift mf exons rb cb info := by
+  have hcA : ∀ st : AInfo, st.info.internalPolyA = info.internalPolyA → st.info.externalPolyA = info.externalPolyA →
+      ∀ a, trimPolyA st a = trimPolyAOrig st a := by
+    intro st h1 h2 a
+    have hc : ¬ (st.info.internalPolyA ≠ -1 ∧ st.info.externalPolyA ≠ -1) := by rw [h1, h2]; omega
+    unfold trimPolyA trimPolyAOrig clampA
+    simp only [hc, if_false]
+  have hcT : ∀ st : AInfo, st.info.internalPolyT = info.internalPolyT → st.info.externalPolyT = info.externalPolyT →
+      ∀ t, trimPolyT st t = trimPolyTOrig st t := by
+    intro st h1 h2 t
+    have hc : ¬ (st.info.internalPolyT ≠ -1 ∧ st.info.externalPolyT ≠ -1) := by rw [h1, h2]; omega
+    unfold trimPolyT trimPolyTOrig clampT
+    simp only [hc, if_false]
+  unfold addPolyaInfo addPolyaInfoOrigShift addPolyaInfoWith addPolyaInfoGen
+  cases h0 : ainfoInit exons rb cb info with
+  | none => rfl
+  | some st0 =>
+    have hi0 : st0.info = info := by
+      unfold ainfoInit at h0
+      split at h0
+      · cases h0; rfl
+      · cases h0
+    cases hc : correctReadInfo mf exons info with
+    | none => rfl
+    | some at' =>
+      obtain ⟨a, t⟩ := at'
+      simp only [Option.bind_eq_bind, Option.bind_some]
+      rw [hcA st0 (by rw [hi0]) (by rw [hi0]) a]
+      cases h1 : trimPolyAOrig st0 a with
+      | none => rfl
+      | some st1 =>
+        have hk : st1.info.internalPolyT = info.internalPolyT ∧ st1.info.externalPolyT = info.externalPolyT := by
+          unfold trimPolyAOrig at h1
+          split at h1
+          · cases hx : shiftPolya st0.exons a st0.info.internalPolyA with
+            | none => simp [hx] at h1
+            | some v1 =>
+              cases hy : shiftPolya st0.exons a st0.info.externalPolyA with
+              | none => simp [hx, hy] at h1
+              | some v2 =>
+                simp [hx, hy] at h1
+                subst h1
+                simp [hi0]
+          · cases h1; simp [hi0]
+        simp only [Option.bind_some]
+        rw [hcT st1 hk.1 hk.2 t]
+
+example : ((-1 : Int) = -1 ∨ (1528 : Int) = -1) ∧ ((-1 : Int) = -1 ∨ (-1 : Int) = -1) := by decide
 
 end IsoVerif.Props.C16PolyA
